@@ -296,4 +296,24 @@ def proxyView (w : World) (c : Nat) (p : Proxy) : ProxyView :=
   | some x => { obj := some x, truthy := true, fallbackRepr := false }
   | none => { obj := none, truthy := false, fallbackRepr := true }
 
+/-- `_get_current_object()` as the *current source* decides it: the `LocalStack` closure applies the
+generated unbound test to the top of the stack; `falsy` tells which value tokens are falsy objects
+(empty dict / list, 0, "", an object with `__len__() == 0`, ...) -/
+def resolveSrc (falsy : Nat → Bool) (w : World) (c : Nat) : Proxy → Option Nat
+  | .attr v name => resolve w c (.attr v name)
+  | .top v =>
+    match resolve w c (.top v) with
+    | some x =>
+      match Gen.LocalOps.stackProxyTest with
+      | .isNone => some x
+      | .falsy => if falsy x then none else some x
+    | none => none
+
+/-- the three faces of a proxy as the current source computes them; `bool(proxy)` is forwarded to
+the bound object -/
+def proxyViewSrc (falsy : Nat → Bool) (w : World) (c : Nat) (p : Proxy) : ProxyView :=
+  match resolveSrc falsy w c p with
+  | some x => { obj := some x, truthy := !falsy x, fallbackRepr := false }
+  | none => { obj := none, truthy := false, fallbackRepr := true }
+
 end Wz.Local
